@@ -313,3 +313,74 @@ Proof.
     + eapply Forall_impl; [|exact H]. intros kv (A & B & C & D & E & F). exact D.
   - apply trie_path_agrees; [|exact Hfit]. eapply Forall_impl; [|exact H]. intros kv (A & B & C & D & E & F). exact D.
 Qed.
+
+(* ---------------------------------------------------------------------------------------------- *)
+(* the binary tree format (tree.SerializeNoDict / DeserializeNoDict, model and round trip by builder tree-b) *)
+From Pyro Require Import Model.TreeCodec Proofs.TreeCodecProofs.
+
+Definition kids_pos (t : tnode) : Prop := Forall (fun c => t_posb c = true) (t_ch t).
+
+Lemma t_posb_kids t : t_posb t = true -> kids_pos t.
+Proof.
+  destruct t as [n s tot ch]. cbn [t_posb]. rewrite andb_true_iff, forallb_forall. intros [_ H].
+  unfold kids_pos. cbn [t_ch]. now apply Forall_forall.
+Qed.
+
+Lemma t_upd_posb m f ch :
+  Forall (fun c => t_posb c = true) ch -> (forall c, kids_pos c -> t_posb (f c) = true) ->
+  Forall (fun c => t_posb c = true) (t_upd m f ch).
+Proof.
+  intros H Hf. induction H as [|c ch Hc Hall IH]; cbn [t_upd].
+  - constructor; [|constructor]. apply Hf. constructor.
+  - destruct (bcmp (t_name c) m).
+    + constructor; [apply Hf, t_posb_kids, Hc|exact Hall].
+    + constructor; assumption.
+    + constructor; [apply Hf; constructor|]. constructor; assumption.
+Qed.
+
+Lemma t_insert_path_posb : forall p v t, 0 < v -> kids_pos t -> t_posb (t_insert_path p v t) = true.
+Proof.
+  induction p as [|l p IH]; intros v [n s tot ch] Hv Hk; unfold kids_pos in Hk; cbn [t_ch] in Hk; cbn [t_insert_path t_posb].
+  - apply andb_true_iff. split; [lia|]. apply forallb_forall. now apply Forall_forall.
+  - apply andb_true_iff. split; [lia|]. apply forallb_forall. apply Forall_forall.
+    apply t_upd_posb; [exact Hk|]. intros c Hc. now apply IH.
+Qed.
+
+Lemma fold_insert_posb ms : forall t, Forall (fun kv => 0 < snd kv) ms -> kids_pos t -> ms <> [] ->
+  t_posb (fold_left (fun t kv => t_insert (fst kv) (snd kv) t) ms t) = true.
+Proof.
+  induction ms as [|kv ms IH]; intros t Hpos Hk Hne; [congruence|].
+  inversion Hpos as [|? ? Hv Hpos']; subst. cbn [fold_left].
+  pose proof (t_insert_path_posb (bsplit 59 (fst kv)) (snd kv) t Hv Hk) as H1. fold (t_insert (fst kv) (snd kv) t) in H1.
+  destruct ms as [|kv' ms']; [exact H1|].
+  apply IH; [exact Hpos'|apply t_posb_kids, H1|discriminate].
+Qed.
+
+Lemma profile_prune0 ms : Forall (fun kv => 0 < snd kv) ms -> t_prune 0 (profile_of ms) = profile_of ms.
+Proof.
+  intros Hpos. destruct ms as [|kv ms]; [reflexivity|].
+  apply prune0_pos. unfold profile_of. apply fold_insert_posb; [exact Hpos|constructor|discriminate].
+Qed.
+
+Theorem tree_path_agrees cap ms :
+  Forall (fun kv => 0 < snd kv) ms -> t_fitsb (profile_of ms) = true -> (t_size (profile_of ms) <= cap)%nat ->
+  tree_via_tree (tree_body cap ms) = Some (profile_of ms).
+Proof.
+  intros Hpos Hfit Hsz. unfold tree_via_tree, tree_body.
+  destruct (t_build_ok ms) as (Hwf & Hex & _). cbn zeta in *. fold (profile_of ms) in Hwf, Hex.
+  destruct (nodict_lossless cap (profile_of ms) Hwf Hex Hfit Hsz) as [H _].
+  rewrite H, profile_prune0 by exact Hpos. reflexivity.
+Qed.
+
+(* all four wire formats store the multiset itself *)
+Theorem formats_agree4 : forall cap ms, Forall entry_ok ms ->
+  tt_fitsb 1 1 (tt_of_multiset ms) = true -> t_fitsb (profile_of ms) = true -> (t_size (profile_of ms) <= cap)%nat ->
+  tree_via_groups (render_groups ms) = Some (profile_of ms) /\
+  tree_via_lines (render_lines ms) = Some (profile_of ms) /\
+  tree_via_trie (trie_body ms) = Some (profile_of ms) /\
+  tree_via_tree (tree_body cap ms) = Some (profile_of ms).
+Proof.
+  intros cap ms H Hfit Hfit2 Hsz. destruct (formats_agree ms H Hfit) as (A & B & C).
+  repeat split; try assumption. apply tree_path_agrees; try assumption.
+  eapply Forall_impl; [|exact H]. intros kv (_ & _ & _ & D & _). exact D.
+Qed.
